@@ -40,6 +40,7 @@ import (
 	"os"
 	"path/filepath"
 	"reflect"
+	"regexp"
 	"sort"
 	"strings"
 
@@ -339,7 +340,7 @@ func buildInlineOverlay(root string, env []string) (map[string][]byte, *InlineNo
 	overlay := map[string][]byte{}
 	inlineSeq, modelSeq = 0, 0
 	renamesBack(root, env, overlay, note)
-	for i := 0; i < 4; i++ { // one re-shaping may enable the next (a struct handed on to a callee that folds it too)
+	for i := 0; i < 8; i++ { // one re-shaping may enable the next (a struct handed on to a callee that folds it too)
 		n := len(note.Reshaped)
 		signatureBack(root, env, overlay, note)
 		if len(note.Reshaped) == n {
@@ -347,7 +348,29 @@ func buildInlineOverlay(root string, env []string) (map[string][]byte, *InlineNo
 		}
 	}
 	modelLibrary(root, env, overlay, note)
-	for round := 0; round < 3; round++ {
+	inlineRounds(root, env, overlay, note)
+	// a re-shaping can wait for an expansion (a method called on a folded parameter group): once more
+	for i := 0; i < 4; i++ {
+		n := len(note.Reshaped)
+		signatureBack(root, env, overlay, note)
+		if len(note.Reshaped) == n {
+			break
+		}
+		inlineRounds(root, env, overlay, note)
+	}
+	if len(overlay) == 0 {
+		if len(note.Helpers) == 0 && len(note.Renamed) == 0 && len(note.Modelled) == 0 && len(note.Reshaped) == 0 {
+			return nil, nil
+		}
+		return nil, note
+	}
+	return overlay, note
+}
+
+var genBindingDecl = regexp.MustCompile(`var inl\d+_\w+ func\(`)
+
+func inlineRounds(root string, env []string, overlay map[string][]byte, note *InlineNote) {
+	for round := 0; round < 5; round++ {
 		dirs := map[string]bool{}
 		cands := map[string]bool{} // funcKey
 		scanFuncsOverlay(root, overlay, func(rel, file string, fd *ast.FuncDecl) {
@@ -359,10 +382,18 @@ func buildInlineOverlay(root string, env []string) (map[string][]byte, *InlineNo
 				dirs[rel] = true
 			}
 		})
-		if len(cands) == 0 {
+		// packages that still hold a generated binding of a function literal are visited as well
+		for f, b := range overlay {
+			if genBindingDecl.Match(b) {
+				if rel, err := filepath.Rel(root, filepath.Dir(f)); err == nil {
+					dirs[filepath.ToSlash(rel)] = true
+				}
+			}
+		}
+		if len(cands) == 0 && len(dirs) == 0 {
 			break
 		}
-		if round == 0 {
+		if round == 0 && len(note.Helpers) == 0 {
 			for k := range cands {
 				note.Helpers = append(note.Helpers, k)
 			}
@@ -406,13 +437,6 @@ func buildInlineOverlay(root string, env []string) (map[string][]byte, *InlineNo
 			break
 		}
 	}
-	if len(overlay) == 0 {
-		if len(note.Helpers) == 0 && len(note.Renamed) == 0 && len(note.Modelled) == 0 && len(note.Reshaped) == 0 {
-			return nil, nil
-		}
-		return nil, note
-	}
-	return overlay, note
 }
 
 // ---- signatures of confirmed functions put back ----------------------------------------------
@@ -486,13 +510,19 @@ func signatureBack(root string, env []string, overlay map[string][]byte, note *I
 				}
 				if found == 1 {
 					jobs = append(jobs, job{"unfold", c, c.key, at})
+					continue
 				}
+			}
+			if baselineSpecs[c.key] != "" && (typesOf(strings.SplitN(baselineSpecs[c.key], "|", 2)[1]) != typesOf(strings.SplitN(c.spec, "|", 2)[1]) ||
+				(resultsOf(baselineSigs[c.key]) != resultsOf(c.sig) && resultsAgree(resultsOf(baselineSigs[c.key]), resultsOf(c.sig)))) {
+				jobs = append(jobs, job{"resig", c, c.key, 0})
 			}
 			continue
 		}
 		cands = append(cands, c)
 	}
 	for _, c := range cands {
+		nJobs := len(jobs)
 		dir, rest, _ := strings.Cut(c.key, ":")
 		recvT, name := rest[:strings.LastIndex(rest, ".")], c.name
 		crecv, cparams, _ := strings.Cut(c.spec, "|")
@@ -585,10 +615,29 @@ func signatureBack(root string, env []string, overlay map[string][]byte, note *I
 				}
 			}
 		}
+		if len(jobs) == nJobs {
+			// none of the named re-shapings: the general solver, against the one missing confirmed
+			// function of this name (whatever its receiver)
+			var bks []string
+			for k := range baselineFuncs {
+				if strings.HasPrefix(k, dir+":") && strings.HasSuffix(k, "."+name) && !presentKey(present, k) && k != c.key {
+					bks = append(bks, k)
+				}
+			}
+			if len(bks) == 1 {
+				jobs = append(jobs, job{"resig", c, bks[0], 0})
+			}
+		}
 	}
 	if len(jobs) == 0 {
 		return
 	}
+	sort.SliceStable(jobs, func(a, b int) bool {
+		if (jobs[a].kind == "resig") != (jobs[b].kind == "resig") {
+			return jobs[b].kind == "resig"
+		}
+		return jobs[a].c.key < jobs[b].c.key
+	})
 	dirs := map[string]bool{}
 	for _, j := range jobs {
 		dirs[j.c.rel] = true
@@ -616,7 +665,14 @@ func signatureBack(root string, env []string, overlay map[string][]byte, note *I
 		in := &inliner{pk: pk, note: note, changed: map[*ast.File]bool{}}
 		unfolded := false
 		for _, j := range jobs {
-			if j.c.rel != rel || (j.kind == "unfold" && unfolded) {
+			if j.c.rel != rel || ((j.kind == "unfold" || j.kind == "resig") && unfolded) {
+				continue
+			}
+			if j.kind == "resig" {
+				if in.resig(j.c.key, j.base, rel) {
+					note.Reshaped = append(note.Reshaped, "resig: "+j.c.key+" → "+j.base)
+					unfolded = true
+				}
 				continue
 			}
 			if in.reshape(j.kind, j.c.key, j.base, rel, j.pos) {
@@ -998,6 +1054,8 @@ func (in *inliner) reshape(kind, from, base, rel string, pos int) bool {
 			if id, ok := n.(*ast.Ident); ok && info.Uses[id] == types.Object(pobj) {
 				if selOf[id] == nil {
 					okUses = false
+				} else if sel := info.Selections[selOf[id]]; sel == nil || sel.Kind() != types.FieldVal || len(sel.Index()) != 1 {
+					okUses = false // a method called on the whole value
 				}
 			}
 			return okUses
@@ -1592,6 +1650,7 @@ type helper struct {
 	decl *ast.FuncDecl
 	file *ast.File
 	key  string
+	lit  *ast.FuncLit // a generated local binding of a function literal (see inline_locals.go)
 }
 
 type inliner struct {
@@ -1601,6 +1660,8 @@ type inliner struct {
 	note          *InlineNote
 	changed       map[*ast.File]bool
 	helpers       map[*types.Func]*helper
+	closures      map[*types.Func]*helper // unknown helpers with defer statements: expanded as function literals
+	localLits     map[*types.Var]*helper  // generated bindings of function literals, expanded at their calls
 	seq           int
 	curFile       *ast.File
 	curFn         string
@@ -1634,14 +1695,45 @@ func (in *inliner) run() {
 				continue
 			}
 			if why := in.ineligible(obj, fd); why != "" {
+				if why == "uses defer" {
+					if in.closures == nil {
+						in.closures = map[*types.Func]*helper{}
+					}
+					in.closures[obj] = &helper{fn: obj, decl: fd, file: f, key: k}
+					continue
+				}
 				in.note.Skipped = append(in.note.Skipped, k+": "+why)
 				continue
 			}
 			in.helpers[obj] = &helper{fn: obj, decl: fd, file: f, key: k}
 		}
 	}
-	if len(in.helpers) == 0 {
+	in.closureForms()
+	for _, f := range in.pk.Syntax {
+		if in.fileUnsupported(f) {
+			continue
+		}
+		for _, d := range f.Decls {
+			if fd, ok := d.(*ast.FuncDecl); ok && fd.Body != nil {
+				in.registerLocalLits(fd, f)
+			}
+		}
+	}
+	if len(in.helpers) == 0 && len(in.localLits) == 0 {
+		for f := range in.changed {
+			in.finishFile(f)
+		}
 		return
+	}
+	for _, f := range in.pk.Syntax {
+		if in.fileUnsupported(f) {
+			continue
+		}
+		for _, d := range f.Decls {
+			if fd, ok := d.(*ast.FuncDecl); ok && fd.Body != nil && in.splitShortCircuits(fd.Body) {
+				in.changed[f] = true
+			}
+		}
 	}
 	for _, f := range in.pk.Syntax {
 		if in.fileUnsupported(f) {
@@ -2436,6 +2528,12 @@ func (in *inliner) helperOf(c *ast.CallExpr) *helper {
 	if id == nil {
 		return nil
 	}
+	if v, isVar := in.info().Uses[id].(*types.Var); isVar {
+		if _, plain := c.Fun.(*ast.Ident); plain {
+			return in.localLits[v]
+		}
+		return nil
+	}
 	fn, _ := in.info().Uses[id].(*types.Func)
 	if fn == nil {
 		return nil
@@ -2522,6 +2620,9 @@ func (in *inliner) firstCall(roots []ast.Expr) (*ast.CallExpr, bool) {
 	walk = func(e ast.Expr) bool {
 		if found != nil || e == nil {
 			return false
+		}
+		if tv, isT := in.info().Types[e]; isT && tv.IsType() {
+			return true // make([]T, n), new(T), T(x): the type is not evaluated
 		}
 		switch x := e.(type) {
 		case *ast.Ident, *ast.BasicLit:
@@ -2673,13 +2774,72 @@ func (in *inliner) firstCall(roots []ast.Expr) (*ast.CallExpr, bool) {
 	for _, r := range roots {
 		s := walk(r)
 		if found != nil {
-			return found, ok && simpleSoFar
+			return found, ok && (simpleSoFar || in.pureHelperCall(found))
 		}
 		if !s {
 			simpleSoFar = false
 		}
 	}
 	return nil, false
+}
+
+// pureHelperCall: the helper only reads its parameters and package-level variables and compares / selects among
+// them (no calls, no indexing, no dereference, no division, no assignment to anything but its own locals), and
+// the arguments are free of effects: evaluating it earlier than written changes nothing but the order in
+// which two expressions that would both panic do so.
+func (in *inliner) pureHelperCall(call *ast.CallExpr) bool {
+	h := in.helperOf(call)
+	if h == nil {
+		return false
+	}
+	for _, a := range append([]ast.Expr{recvOf(call)}, call.Args...) {
+		if a != nil && !in.pure(a) {
+			return false
+		}
+	}
+	okAll := true
+	ast.Inspect(h.decl.Body, func(n ast.Node) bool {
+		switch x := n.(type) {
+		case *ast.CallExpr:
+			if id, ok := x.Fun.(*ast.Ident); ok {
+				if b, ok := in.info().Uses[id].(*types.Builtin); ok && (b.Name() == "len" || b.Name() == "cap") {
+					return true
+				}
+			}
+			okAll = false
+		case *ast.IndexExpr, *ast.SliceExpr, *ast.StarExpr, *ast.TypeAssertExpr, *ast.FuncLit, *ast.GoStmt, *ast.DeferStmt, *ast.SendStmt, *ast.RangeStmt, *ast.ForStmt, *ast.IncDecStmt:
+			okAll = false
+		case *ast.UnaryExpr:
+			if x.Op == token.ARROW || x.Op == token.AND {
+				okAll = false
+			}
+		case *ast.BinaryExpr:
+			if x.Op == token.QUO || x.Op == token.REM || x.Op == token.SHL || x.Op == token.SHR {
+				okAll = false
+			}
+		case *ast.SelectorExpr:
+			if sel := in.info().Selections[x]; sel != nil && (sel.Indirect() || sel.Kind() != types.FieldVal) {
+				okAll = false
+			}
+		case *ast.AssignStmt:
+			for _, l := range x.Lhs {
+				id, ok := l.(*ast.Ident)
+				if !ok {
+					okAll = false
+					continue
+				}
+				o := in.info().Defs[id]
+				if o == nil {
+					o = in.info().Uses[id]
+				}
+				if v, isVar := o.(*types.Var); id.Name != "_" && (!isVar || v.Parent() == in.pk.Types.Scope() || v.Parent() == nil) {
+					okAll = false
+				}
+			}
+		}
+		return okAll
+	})
+	return okAll
 }
 
 // pure: no calls (other than len/cap), receives, or function literals with helper calls.
@@ -2692,6 +2852,9 @@ func (in *inliner) pure(e ast.Expr) bool {
 				if b, ok := in.info().Uses[id].(*types.Builtin); ok && (b.Name() == "len" || b.Name() == "cap") {
 					return true
 				}
+			}
+			if tv, ok := in.info().Types[x.Fun]; ok && tv.IsType() && len(x.Args) == 1 {
+				return true // a conversion
 			}
 			p = false
 		case *ast.UnaryExpr:
@@ -2893,6 +3056,13 @@ func (in *inliner) expandWith(h *helper, call *ast.CallExpr, thr *threadCtl) (*e
 				_, at := scope.LookupParent(id.Name, call.Pos())
 				if at != obj {
 					bad = "name " + id.Name + " is shadowed at the call site"
+				}
+			} else if h.lit != nil && (obj.Pos() < h.lit.Pos() || obj.Pos() >= h.lit.End()) {
+				// a variable the literal captures must be the one visible at the call
+				if _, isVar := obj.(*types.Var); isVar && !obj.(*types.Var).IsField() {
+					if _, at := scope.LookupParent(id.Name, call.Pos()); at != obj {
+						bad = "captured variable " + id.Name + " is not the one in scope at the call site"
+					}
 				}
 			}
 		}
@@ -3422,6 +3592,11 @@ func (in *inliner) inPlaceParam(h *helper, call *ast.CallExpr, s ast.Stmt) *type
 // other argument hands out the address of the same variable.
 func (in *inliner) substitutable(h *helper, p *types.Var, arg ast.Expr, call *ast.CallExpr) bool {
 	a := unparen(arg)
+	// the argument must have the parameter's very type: an implicit conversion (a concrete value handed to an
+	// interface parameter) is part of the binding
+	if at := in.typeOfArg(arg); at == nil || !types.Identical(at, p.Type()) {
+		return false
+	}
 	var base *ast.Ident
 	switch x := a.(type) {
 	case *ast.Ident:
@@ -3654,4 +3829,28 @@ func zeroPos(n ast.Node) {
 		}
 		return true
 	})
+}
+
+// typeOfArg: the type of an argument expression, also of the &x / *x the normaliser itself wrote around a typed x.
+func (in *inliner) typeOfArg(e ast.Expr) types.Type {
+	if t := in.info().TypeOf(e); t != nil {
+		return t
+	}
+	switch x := e.(type) {
+	case *ast.ParenExpr:
+		return in.typeOfArg(x.X)
+	case *ast.UnaryExpr:
+		if x.Op == token.AND {
+			if t := in.typeOfArg(x.X); t != nil {
+				return types.NewPointer(t)
+			}
+		}
+	case *ast.StarExpr:
+		if t := in.typeOfArg(x.X); t != nil {
+			if p, ok := t.Underlying().(*types.Pointer); ok {
+				return p.Elem()
+			}
+		}
+	}
+	return nil
 }
